@@ -1,8 +1,10 @@
 // concmc — engine E2: systematic exploration of thread interleavings (preemption-bounded DFS under the
 // cooperative scheduler vsched) of small concurrent harnesses over the real, source-instrumented code:
-//   C09  concurrent writers / reader / subscriber on certstore.Store
-//   C05  concurrent validation with a progress change and cache eviction
-//   C18  lookup vs remote admission vs own broadcast on the chain exchange
+//
+//	C09  concurrent writers / reader / subscriber on certstore.Store
+//	C05  concurrent validation with a progress change and cache eviction
+//	C18  lookup vs remote admission vs own broadcast on the chain exchange
+//
 // The target files are rewritten at check time (tools/yieldgen): "sync" -> vsync shim, a scheduling point
 // before every statement.  Results are written to a side file that the property's main harness folds into
 // its evidence; violations are printed in the usual format.
@@ -14,6 +16,7 @@ import (
 	"encoding/json"
 	"flag"
 	"fmt"
+	"io"
 	"os"
 	"path/filepath"
 	"runtime"
@@ -30,10 +33,12 @@ import (
 	"github.com/filecoin-project/go-f3/internal/verif/vcommon"
 	"github.com/filecoin-project/go-f3/internal/verif/vfix"
 	"github.com/filecoin-project/go-f3/internal/verif/vsched"
+	"github.com/filecoin-project/go-f3/internal/writeaheadlog"
 	"github.com/ipfs/go-datastore"
 	dssync "github.com/ipfs/go-datastore/sync"
 	pubsub "github.com/libp2p/go-libp2p-pubsub"
 	mocknet "github.com/libp2p/go-libp2p/p2p/net/mock"
+	cbg "github.com/whyrusleeping/cbor-gen"
 )
 
 var (
@@ -359,6 +364,174 @@ func c05ProgressScenario() scenario {
 	}
 }
 
+// ---- C11 ----------------------------------------------------------------------------------------------------
+
+// wEnt is a write-ahead-log entry: (id, epoch).
+type wEnt struct{ ID, Epoch uint64 }
+
+func (e *wEnt) WALEpoch() uint64 { return e.Epoch }
+func (e *wEnt) MarshalCBOR(w io.Writer) error {
+	cw := cbg.NewCborWriter(w)
+	if err := cw.WriteMajorTypeHeader(cbg.MajArray, 2); err != nil {
+		return err
+	}
+	if err := cw.WriteMajorTypeHeader(cbg.MajUnsignedInt, e.ID); err != nil {
+		return err
+	}
+	return cw.WriteMajorTypeHeader(cbg.MajUnsignedInt, e.Epoch)
+}
+func (e *wEnt) UnmarshalCBOR(r io.Reader) error {
+	cr := cbg.NewCborReader(r)
+	if _, n, err := cr.ReadHeader(); err != nil || n != 2 {
+		if err == nil {
+			err = fmt.Errorf("bad entry header")
+		}
+		return err
+	}
+	_, id, err := cr.ReadHeader()
+	if err != nil {
+		return err
+	}
+	_, ep, err := cr.ReadHeader()
+	if err != nil {
+		return err
+	}
+	e.ID, e.Epoch = id, ep
+	return nil
+}
+
+var c11Dir = vcommon.ShmDir("conc-c11")
+
+// c11Scenario: the node's finalize goroutine purges old closed files while its runner appends (and a file is
+// closed by a rotation) and a reader lists the log: every acknowledged entry at or above the purge epoch must be
+// returned by every complete read that starts after its acknowledgement, and by the log afterwards.
+func c11Scenario(variant int) scenario {
+	var seq atomic.Int64
+	return scenario{
+		name:  fmt.Sprintf("write-ahead log purge / append+rotate / read (variant %d)", variant),
+		names: []string{"P", "A", "R"},
+		mk: func() ([]func(), func(vsched.Result) *outcome) {
+			if _, err := os.Stat("/dev/shm"); err != nil {
+				c11Dir = filepath.Join(os.TempDir(), filepath.Base(c11Dir))
+			}
+			dir := filepath.Join(c11Dir, fmt.Sprintf("x%d", seq.Add(1)))
+			_ = os.RemoveAll(dir)
+			w, err := writeaheadlog.Open[wEnt, *wEnt](dir)
+			if err != nil {
+				panic(err)
+			}
+			must := func(err error) {
+				if err != nil {
+					panic(err)
+				}
+			}
+			// two closed files of old epochs, one closed file of a live epoch, an active file
+			must(w.Append(wEnt{1, 1}))
+			must(w.Rotate())
+			must(w.Append(wEnt{2, 2}))
+			must(w.Rotate())
+			must(w.Append(wEnt{3, 7}))
+			must(w.Rotate())
+			must(w.Append(wEnt{4, 8}))
+			acked := map[uint64]bool{3: true, 4: true} // acknowledged and at or above the purge epoch 5
+			var pErr, aErr error
+			var during []wEnt
+			var duringErr error
+			var ackedBeforeRead map[uint64]bool
+			purge := func() { pErr = w.Purge(5) }
+			appendRotate := func() {
+				if aErr = w.Append(wEnt{5, 8}); aErr != nil {
+					return
+				}
+				if variant == 0 {
+					aErr = w.Rotate()
+				} else {
+					if aErr = w.Close(); aErr == nil { // a clean stop of the writer closes the active file as well
+						aErr = w.Append(wEnt{6, 9})
+					}
+				}
+			}
+			read := func() {
+				ackedBeforeRead = map[uint64]bool{3: true, 4: true}
+				during, duringErr = w.All()
+			}
+			check := func(res vsched.Result) *outcome {
+				defer os.RemoveAll(dir)
+				if res.Stalled != "" || res.Deadlock != "" {
+					return &outcome{"deadlock", res.Stalled + res.Deadlock}
+				}
+				if len(res.Panics) > 0 {
+					return &outcome{"panic", strings.Join(res.Panics, "; ")}
+				}
+				if pErr != nil || aErr != nil || duringErr != nil {
+					return &outcome{"wal-operation-failed-under-concurrency", fmt.Sprintf("purge: %v, append/rotate: %v, read: %v", pErr, aErr, duringErr)}
+				}
+				acked[5] = true
+				if variant == 1 {
+					acked[6] = true
+				}
+				has := func(es []wEnt, id uint64) bool {
+					for _, e := range es {
+						if e.ID == id {
+							return true
+						}
+					}
+					return false
+				}
+				for id := range ackedBeforeRead {
+					if !has(during, id) {
+						return &outcome{"acknowledged-entry-missing-from-concurrent-read", fmt.Sprintf("entry %d (epoch >= 5, acknowledged before the read started) is missing from a read that ran concurrently with a purge below epoch 5: %v", id, during)}
+					}
+				}
+				verify := func(when string, es []wEnt) *outcome {
+					for id := range acked {
+						if !has(es, id) {
+							return &outcome{"acknowledged-entry-lost-under-concurrency", fmt.Sprintf("%s: entry %d (acknowledged, epoch >= the purge epoch) is no longer returned: %v", when, id, es)}
+						}
+					}
+					for _, e := range es {
+						if e.ID < 1 || e.ID > 6 {
+							return &outcome{"read-returns-unappended-entry", fmt.Sprintf("%s: %v", when, es)}
+						}
+					}
+					return nil
+				}
+				after, err := w.All()
+				if err != nil {
+					return &outcome{"wal-operation-failed-under-concurrency", err.Error()}
+				}
+				if o := verify("after the three threads finished", after); o != nil {
+					return o
+				}
+				// a second purge and a restart must agree
+				if err := w.Purge(5); err != nil {
+					return &outcome{"wal-operation-failed-under-concurrency", err.Error()}
+				}
+				_ = w.Close()
+				w2, err := writeaheadlog.Open[wEnt, *wEnt](dir)
+				if err != nil {
+					return &outcome{"wal-operation-failed-under-concurrency", "reopen: " + err.Error()}
+				}
+				re, err := w2.All()
+				_ = w2.Close()
+				if err != nil {
+					return &outcome{"wal-operation-failed-under-concurrency", err.Error()}
+				}
+				if o := verify("after another purge and a restart", re); o != nil {
+					return o
+				}
+				for _, e := range re {
+					if e.Epoch < 5 && e.ID <= 2 {
+						return &outcome{"purge-incomplete-under-concurrency", fmt.Sprintf("closed file with entry %d (epoch %d < 5) survived two purges: %v", e.ID, e.Epoch, re)}
+					}
+				}
+				return nil
+			}
+			return []func(){purge, appendRotate, read}, check
+		},
+	}
+}
+
 // ---- C18 ----------------------------------------------------------------------------------------------------
 
 var ps *pubsub.PubSub
@@ -474,14 +647,14 @@ func c14Scenario() scenario {
 }
 
 type sideResult struct {
-	Property      string   `json:"property"`
-	Schedules     int64    `json:"schedules"`
-	Complete      bool     `json:"complete_within_bound"`
-	PreemptBound  int      `json:"preemption_bound"`
-	Scenarios     []string `json:"scenarios"`
-	Outcomes      int      `json:"distinct_interleaving_traces"`
-	Violations    int      `json:"violations"`
-	SampleTraces  []string `json:"sample_traces"`
+	Property     string   `json:"property"`
+	Schedules    int64    `json:"schedules"`
+	Complete     bool     `json:"complete_within_bound"`
+	PreemptBound int      `json:"preemption_bound"`
+	Scenarios    []string `json:"scenarios"`
+	Outcomes     int      `json:"distinct_interleaving_traces"`
+	Violations   int      `json:"violations"`
+	SampleTraces []string `json:"sample_traces"`
 }
 
 func main() {
@@ -505,6 +678,8 @@ func main() {
 		scs = []scenario{c09Scenario(0), c09Scenario(1)}
 	case "C05":
 		scs = []scenario{c05Scenario(0), c05Scenario(1), c05ProgressScenario()}
+	case "C11":
+		scs = []scenario{c11Scenario(0), c11Scenario(1)}
 	case "C14":
 		runtime.GOMAXPROCS(1) // makes sync.Pool reuse between the two controlled threads deterministic
 		scs = []scenario{c14Scenario()}
@@ -627,5 +802,6 @@ func main() {
 	body, _ := json.MarshalIndent(side, "", " ")
 	_ = os.MkdirAll(filepath.Dir(out), 0o755)
 	_ = os.WriteFile(out, body, 0o644)
+	_ = os.RemoveAll(c11Dir)
 	os.Exit(rc)
 }
